@@ -181,6 +181,11 @@ def statement(kind, k):
         return ['print("r%d"); raise ValueError("m%%d" %% t(%d))' % (k, k)], 'r%d\n' % k, None, False, ('ValueError', 'm%d' % k)
     if kind == 'callraise':
         return ['boom(t(%d))' % k], '', None, True, ('KeyError', "'b%d'" % k)
+    if kind == 'evalsyntax':
+        # a SyntaxError raised AT RUN TIME by called code: format_exception_only gives several lines (file, source, caret), the last one names it
+        return ['eval("%%d +" %% t(%d))' % k], '', None, True, ('SyntaxError', 'invalid syntax')
+    if kind == 'compileindent':
+        return ['c%d = compile("if x:\\npass # %%d" %% t(%d), "<s>", "exec")' % (k, k)], '', None, False, ('IndentationError', "expected an indented block after 'if' statement on line 1")
     if kind == 'awaitcallraise':
         # the exception leaves an AWAITED coroutine, in a statement that is not a bare expression (the part runs as a coroutine in exec mode)
         return ['y%d = await aboom(t(%d))' % (k, k)], '', None, False, ('KeyError', "'b%d'" % k)
